@@ -103,11 +103,27 @@ def run_prop(prop, tier, seed, only=None):
     for cfg in cfgs:
         for i, sh in enumerate(core.shard(ks, nshards)):
             jobs.append(core.Job("c06-%d" % i, core.tu("c06.h", sh), cfg, env=env, timeout=3600))
-    core.build_and_run(jobs, prop)
-    for j in jobs:
+    chain_jobs = []
+    if prop == "C07":
+        # static_integer / static_number under the checked tags: C11's lock-step chains without narrowing conversions (those are C11's
+        # recorded KF-C11-01) plus the run-time shift chains; only the event kind is judged here
+        from . import c11
+        cs = [(k["desc"], k["stmt"]) for k in c11.load()["kernels"] if "conv" not in k["desc"].split("ops=")[-1]][:60 if tier == "quick" else 400] + c11.shift_chains()
+        if only:
+            cs = [c for c in cs if c[0] == only["kernel"]]
+        cenv = {"VERIF_SEED": str(seed), "VERIF_NRAND": "12" if tier == "quick" else "40", "VERIF_CHAIN_CASES": "3000" if tier == "quick" else "30000"}
+        for cfg in (["g-san"] if tier == "quick" else ["g-san", "c-san", "g-port"]) if not only else [only["config"]]:
+            for i, sh in enumerate(core.shard(cs, 1 if only else 16)):
+                if sh:
+                    chain_jobs.append(core.Job("c07chain-%d" % i, core.tu("c11.h", sh), cfg, env=cenv, timeout=7200))
+    core.build_and_run(jobs + chain_jobs, prop)
+    for j in jobs + chain_jobs:
         res.absorb(j)
         if j.died:
             res.inconclusive.append("binary %s[%s] died outside a guarded case (rc=%s)" % (j.name, j.config, j.rc))
+    for v in res.violations:
+        if v.get("job", "").startswith("c07chain-") and v["cls"].startswith("event:"):
+            v["cls"] = "c07:chain:" + v["cls"]
     # C06 owns value/signal mismatches, C07 owns trap/abort/hang events
     if prop == "C06":
         res.violations = [v for v in res.violations if not v["cls"].startswith("c07:")]
